@@ -200,7 +200,8 @@ PROPS['C01'] = dict(
     level_note='assumes the grammar maps mnemonic/register text to the like-named enum variant (binding witnesses only), byteorder, '
                'and the leaf abstraction of expression operands; placement in the image is C02',
     technique='Kani contract harnesses (process == generated ISA oracle) on the extracted encoder + Verus structural contract',
-    verus=['encv'],
+    verus=['encv', 'expr', 'ctxu'],
+    depends_on=['C05', 'C10'],   # an operand written as an expression or through a .def alias: its value (C05) and the alias lookup (C10) are presupposed
     kani=[dict(slice='enc', harnesses=_enc_harnesses(), cex=_enc_cex)],
     cex_replay=_enc_witness_from_cex,
     witnesses=witnesses_enc(),
@@ -225,6 +226,7 @@ PROPS['C04'] = dict(
                'the clause is the one of observe_at: if Ok, the bytes are the reference encoding of the pointer form as written',
     technique='Verus postcondition Ok ==> shape_ok on the extracted process + Kani contract harnesses against the ISA oracle (Err side)',
     verus=['encv', 'expr'],
+    depends_on=['C05'],   # 'outside its field' is about the VALUE of the operand expression (C05)
     kani=[dict(slice='enc', harnesses=_enc_harnesses(), cex=_enc_cex), dict(slice='conv', harnesses=lambda tier: _conv_harnesses(tier))],
     cex_replay=_enc_witness_from_cex,
     witnesses=witnesses_enc(),
@@ -287,8 +289,8 @@ PROPS['C03'] = dict(
                'lengths), which count for this property too.',
     level_note='grammar and expression parsing assumed; the composition pass 1 -> pass 2 is by matching clause pairs (unit LINK), as for C02',
     technique='Kani contract harnesses on the extracted relative-branch arms of process against the ISA oracle + Verus fold oracle of pass 2 (pc)',
-    verus=['encv', 'pass1', 'pass2', 'link'],
-    depends_on=['C02'],      # "target = address + 1 + d" for a label target presupposes that the label's value is where its item lands
+    verus=['encv', 'pass1', 'pass2', 'link', 'expr'],
+    depends_on=['C02', 'C05'],   # a label target presupposes that the label's value is where its item lands (C02); a pc-relative expression presupposes its value (C05)
     kani=[dict(slice='enc', harnesses=_enc_harnesses(_is_rel_harness), cex=_enc_cex, also_for=['C03'])],
     cex_replay=_enc_witness_from_cex,
     witnesses=witnesses_c03,
@@ -540,7 +542,8 @@ PROPS['C06'] = dict(
                'bytes of v mod 2^w exactly on the fit ranges for all i64.',
     level_note='as C02; the element conversion is split: range half in Verus (unit EXPR), byte values in Kani (conv) on the leaf view of expressions',
     technique='Verus list-fold invariants on the extracted GetData impl + Kani conversion harnesses + pass1/pass2 contracts',
-    verus=['data', 'pass1', 'pass2', 'expr'],
+    verus=['data', 'pass1', 'pass2', 'expr', 'ctxu'],
+    depends_on=['C05', 'C10'],   # the operands are expressions and symbols: their values (C05) and bindings (C10) are presupposed
     kani=[dict(slice='conv', harnesses=lambda tier: _conv_harnesses(tier))],
     witnesses=lambda tier, seed: witnesses_layout(tier, seed, with_org=False),
     functions=['directive::{Operand::len/get_bytes/get_words/get_double_words/get_quad_words, GetData for Vec<Operand>}',
@@ -622,7 +625,8 @@ PROPS['C12'] = dict(
     level_note='the `.device` arm of Directive::parse (lookup, single-selection rule, frame) is clause #device of unit DIR; '
                '`.byte <expression>` silently reserving nothing is pinned by the test suite (known finding)',
     technique='Verus contract on the extracted limit check + generated table/part-file obligations + Kani harness for Device::new',
-    verus=['build', 'devtab', 'pass1', 'dir'],
+    verus=['build', 'devtab', 'pass1', 'dir', 'encv'],
+    depends_on=['C02'],   # 'fills flash exactly to capacity' presupposes the sizes and positions of the layout property (instruction lengths, padding)
     kani=[dict(slice='dev', harnesses=lambda tier: [h for h in _dev_harnesses(tier) if h[0] == 'dev_new'])],
     witnesses=witnesses_c12,
     functions=['builder::build_from_parsed', 'builder::pass1::{build_pass_1, pass_1_internal, next_address}', 'Device::new', 'DEVICES rows (generated)'],
@@ -930,7 +934,7 @@ PROPS['C15'] = dict(
                'inside pass 0 (macro expansion) and inside an included file are not under contract',
     technique='Verus postconditions on error locations over the extracted passes / Directive::parse / parse_iter (rule R1 keeps the location)',
     verus=['pass1', 'pass2', 'dir', 'cond', 'data', 'encv', 'expr', 'pass0', 'ctxu'],
-    depends_on=['C10'],      # 'an undefined symbol ..., a duplicate label' fail the build: the C10 clauses (set_label reports a rebinding, unbound => Err) are presupposed
+    depends_on=['C10', 'C04'],   # 'an undefined symbol, a duplicate label' (C10) and 'an operand of the wrong kind or out of range' (C04) fail the build: presupposed
     whole_units=['expr'],     # an expression that must fail but evaluates hides the fault: every clause of EXPR counts here
     witnesses=witnesses_c15,
     functions=['pass_1_internal', 'pass_2_internal', 'build_pass_2', 'Directive::parse', 'parse_iter', 'process / GetData (no location)'],
